@@ -111,3 +111,17 @@ def gen_scenario(r, mode=None):
 def gen(seed, n, salt="set"):
     r = vlib.rng(seed, salt)
     return [gen_scenario(r) for _ in range(n)]
+
+
+def gen_delegated(seed, n, salt="setd"):
+    """ObjectSets with delegated (class) phases and pre-existing ObjectSetPhase objects in arbitrary states
+    (checks/dlglib.scenario_states), as single-pass scenarios of harness mode "objectset"."""
+    import dlglib
+    r = vlib.rng(seed, salt)
+    out = []
+    for i in range(n):
+        d = dlglib.scenario_states(r, strategy="native")
+        t = d["stages"][0]["targets"][0]
+        out.append({"force": d["force"], "store": d["store"], "sets": d["sets"], "phases": d["phases"], "nss": d["nss"],
+                    "next_rv": d["next_rv"], "next_uid": d["next_uid"], "target": t})
+    return out
